@@ -76,6 +76,10 @@ TNext ==
                     /\ gS' = IF Live(ps) THEN TickGhost(gS, e.c, ps, "STI" \in fired') ELSE gS
                ELSE /\ Flag(e, cl, <<e.c, e.fired, e.nm, e.ns, e.isr, nextM, nextS>>)
                     /\ Resync(e, e.c)
+       [] e.ev = "Ack" ->       \* the firmware acknowledges (clears) status bits between ticks; a later firing must set them again
+            /\ last' = "Ack" /\ bad' = bad
+            /\ UNCHANGED <<enabled, pm, ps, cycle, nextM, nextS, gM, gS>> /\ fired' = {}
+            /\ isr' = isr \ ((IF e.m % 2 = 1 THEN {"MTI"} ELSE {}) \cup (IF (e.m \div 2) % 2 = 1 THEN {"STI"} ELSE {}))
        [] e.ev = "Reset" ->
             /\ last' = "Reset"
             /\ UNCHANGED <<enabled, pm, ps, isr>>
